@@ -22,7 +22,12 @@ import vlib
 THEOREMS = [
     "c11_builder_flat",
     # nested loop = spec
-    "nl_eq_spec_inner", "nl_eq_spec_semi", "nl_eq_spec_anti",
+    "nl_eq_spec_inner", "nl_eq_spec_left_outer", "nl_eq_spec_semi", "nl_eq_spec_anti",
+    # chunk boundaries
+    "chunking_irrelevant_nljoin", "chunking_irrelevant_hashjoin", "chunking_irrelevant_mergejoin",
+    "chunking_irrelevant_order", "chunking_irrelevant_topn", "chunking_irrelevant_hashagg",
+    "chunking_irrelevant_sortagg", "chunking_irrelevant_semijoin", "chunking_irrelevant_hashsemijoin",
+    "chunking_irrelevant_simpleagg_unsound", "chunkpath_rowcount",
     # hash = nested loop under KeysComparable; full statements refuted
     "hash_eq_nl_inner", "hash_eq_nl_semi", "hash_eq_nl_anti", "hashjoin_inner_structural",
     "chunking_irrelevant_hashjoin_inner",
